@@ -504,9 +504,17 @@ func checkIsUsed(c *core.Ctx) {
 		})
 		return found
 	}
+	// conditions that may stand between a consumer's case and its comparison with the field: the consumer only
+	// depends on the column under exactly this condition; anything narrower prunes a column that is still needed
+	allowedGuards := map[string]bool{
+		// without a limit every row is emitted, whatever the tie-break; with one (and with or without order keys:
+		// rows are ordered by key, then by the whole record) the column takes part in choosing the first n
+		"node.OrderSensitiveTransform.Limit != nil": true,
+	}
+	narrowed := ""
 	comparesField := func(n ast.Node, suffix string) bool {
 		found := false
-		ast.Inspect(n, func(m ast.Node) bool {
+		core.WalkStack(n, func(m ast.Node, stack []ast.Node) bool {
 			is, ok := m.(*ast.IfStmt)
 			if !ok {
 				return true
@@ -519,6 +527,12 @@ func checkIsUsed(c *core.Ctx) {
 			if (y == fieldParam && strings.HasSuffix(x, suffix)) || (x == fieldParam && strings.HasSuffix(y, suffix)) {
 				if setsUsed(is.Body) {
 					found = true
+					for _, anc := range stack {
+						if outer, ok := anc.(*ast.IfStmt); ok && outer != is && !allowedGuards[core.ExprStr(outer.Cond)] {
+							narrowed = fmt.Sprintf("%s: the column only counts as used under the extra condition `%s`", p.Pos(outer.Pos()), core.ExprStr(outer.Cond))
+							found = false
+						}
+					}
 				}
 			}
 			return true
@@ -539,7 +553,12 @@ func checkIsUsed(c *core.Ctx) {
 			}
 			return true
 		})
-		c.Decide(ok, "OPT4", key+"/"+cs.caseConst, fn.Decl.Pos(), 1, "consulted", fmt.Sprintf("isUsed does not look at %s (%s): the column is pruned although it is needed — results change or the plan breaks only when optimization is on", cs.caseConst, cs.what))
+		detail := fmt.Sprintf("isUsed does not look at %s (%s): the column is pruned although it is needed — results change or the plan breaks only when optimization is on", cs.caseConst, cs.what)
+		if !ok && narrowed != "" {
+			detail = fmt.Sprintf("isUsed looks at %s only under a narrower condition than the consumer needs (%s; %s): the column is pruned although it is needed", cs.caseConst, narrowed, cs.what)
+		}
+		c.Decide(ok, "OPT4", key+"/"+cs.caseConst, fn.Decl.Pos(), 1, "consulted", detail)
+		narrowed = ""
 	}
 	// the plan root's own schema
 	rootOK := false
